@@ -808,11 +808,12 @@ class rrule(rrulebase):
             # period at the week start (occurrences before dtstart are
             # dropped by the `res >= self._dtstart` test below).
             back = (weekday - wkst) % 7
-            if back and self._dtstart.toordinal() - back >= 1:
+            if back:
+                # clamped at 0001-01-01: the week's earlier days do not exist
                 first = datetime.date.fromordinal(
-                    self._dtstart.toordinal() - back)
+                    max(self._dtstart.toordinal() - back, 1))
                 year, month, day = first.year, first.month, first.day
-                weekday = wkst
+                weekday = first.weekday()
 
         ii = _iterinfo(self)
         ii.rebuild(year, month)
